@@ -808,7 +808,10 @@ def main(argv=None):
             if line:
                 r = rerun_single(run, line, "replay")
                 if r is None:
-                    print("replay could not be executed")
+                    # the driver died on this input (or produced no line): for a crash replay that IS the failure
+                    print("replay: the process running the implementation died or produced no observation on this input")
+                    print("VIOLATION property=%s replay=%s" % (pid, replay))
+                    return 1
                 else:
                     c, m = r
                     mm, of = compare(run, [c], [m])
